@@ -1161,3 +1161,149 @@ def c04_programs(strlens=(0, 1, 2, 3)):
                 stmts += [("raw", muts[0]), ("yield", "sum() + 2")]
             progs.append(Program("r_%s_closure" % kname, stmts, family="rng_" + kname.rstrip("0123"), tags={"range-in-closure", "range:" + kname.rstrip("0123")} | ({"map-order"} if kname.startswith("map") else set())))
     return progs
+
+
+# ---------------------------------------------------------------------------------------------
+# C06: consumer-side code. `@` in templates is replaced by the program id.
+
+C06_GENS = """func GA@(a, n int) (_ Iter[int]) {
+	for i := 0; i < n+2; i++ {
+		rt.Emit(rt.EFF, 600+i)
+		Yield(a + i*10)
+	}
+	rt.Emit(rt.EFF, 699)
+	return
+}
+
+func GB@(b int) Iter[int] {
+	for {
+		rt.Emit(rt.EFF, 650)
+		Yield(b)
+		b += 3
+	}
+}
+
+func GC@(a, b int) (_ Iter[int]) {
+	rt.Emit(rt.EFF, 660)
+	Yield(a - b)
+	rt.Emit(rt.EFF, 661)
+	Yield(b - a)
+	rt.Emit(rt.EFF, 662)
+	return
+}
+
+type box@ struct {
+	it   Iter[int]
+	base int
+}
+
+func (x box@) Gen(k int) (_ Iter[int]) {
+	for i := 0; i < k; i++ {
+		rt.Emit(rt.EFF, 670+i)
+		Yield(x.base + i)
+	}
+	return
+}
+
+func take@[T any](it Iter[T], k int) []T {
+	var out []T
+	for i := 0; i < k && it.MoveNext(); i++ {
+		out = append(out, it.Current())
+	}
+	return out
+}
+
+func mapIt@[T, U any](it Iter[T], f func(T) U) (_ Iter[U]) {
+	for v := range it {
+		rt.Emit(rt.EFF, 680)
+		Yield(f(v))
+	}
+	return
+}
+
+func sum@(xs []int) int {
+	t := 0
+	for _, x := range xs {
+		t = (t << 1) ^ x
+	}
+	return t
+}
+"""
+
+C06_DRIVER = """func Drive_G@() {
+	a, b, n := rt.NondetInt(1), rt.NondetInt(2), rt.NondetInt(3)
+	g1, g2, g3 := rt.NondetBool(4), rt.NondetBool(5), rt.NondetBool(6)
+	rt.Assume(n >= -1 && n <= 2)
+	rt.Emit(rt.CREATED, 0)
+	r := C@(a, b, n, g1, g2, g3)
+	rt.Emit(rt.RESULT, r)
+	rt.Emit(rt.END, 0)
+}"""
+
+
+def c06_loop_body(rng, var, acc="t", allow_return=True):
+    """random consumer loop body using `var`"""
+    guards = ["g1", "g2", "g3", "%s > a+10" % var, "%s&1 == 0" % var, "%s > b" % var]
+    stmts = ["%s = (%s << 1) ^ %s" % (acc, acc, var), "rt.Emit(46, %s)" % var]
+    jumps = ["break", "continue"] + (["return %s" % acc] if allow_return else [])
+    for _ in range(rng.randint(1, 3)):
+        g = rng.choice(guards)
+        if rng.random() < 0.4:
+            g = "%s && %s" % (g, rng.choice(guards))
+        stmts.append("if %s {\n\t%s\n}" % (g, rng.choice(jumps)))
+    rng.shuffle(stmts)
+    # hard bound on the number of iterations (sources may be infinite)
+    return "lim++\nif lim > 3 {\n\tbreak\n}\n" + "\n".join(stmts)
+
+
+def indent(txt, n=1):
+    return "\n".join(("\t" * n + l) if l else l for l in txt.split("\n"))
+
+
+def c06_consumer(rng, shape):
+    """returns Go text of func C@(a, b, n int, g1, g2, g3 bool) int"""
+    src = rng.choice(["GA@(a, n)", "GB@(b)", "GC@(a, b)", "(box@{base: a}).Gen(n + 1)", "mapIt@(GA@(a, n), func(x int) int { return x + b })"])
+    fin = rng.choice(["GA@(a, n)", "GC@(a, b)", "(box@{base: b}).Gen(n + 2)"])  # finite sources
+    head = "func C@(a, b, n int, g1, g2, g3 bool) int {\n\tt := 0\n\tlim := 0\n\t_ = lim\n"
+    tail = "\trt.Emit(47, t)\n\treturn t\n}\n"
+    if shape == "range_define":
+        return head + "\tfor v := range %s {\n%s\n\t}\n" % (src, indent(c06_loop_body(rng, "v"), 2)) + tail
+    if shape == "range_assign":
+        return head + "\tvar v int\n\tfor v = range %s {\n%s\n\t}\n\tt = (t << 1) ^ v\n" % (src, indent(c06_loop_body(rng, "v"), 2)) + tail
+    if shape == "nested":
+        inner = c06_loop_body(rng, "w", allow_return=True)
+        return head + "\tfor v := range %s {\n\t\tt += v\n\t\tfor w := range %s {\n%s\n\t\t}\n\t\tif g3 && v > a {\n\t\t\tbreak\n\t\t}\n\t}\n" % (fin, rng.choice(["GC@(v, b)", "GA@(v, n)", "GB@(v)"]), indent(inner, 3)) + tail
+    if shape == "pull_then_range":
+        return head + "\tit := %s\n\tif it.MoveNext() {\n\t\tt = it.Current()\n\t\trt.Emit(46, t)\n\t}\n\tfor v := range it {\n%s\n\t}\n" % (src, indent(c06_loop_body(rng, "v"), 2)) + tail
+    if shape == "range_then_pull":
+        return head + "\tit := %s\n\tfor v := range it {\n%s\n\t}\n\tif it.MoveNext() {\n\t\tt = (t << 1) ^ it.Current()\n\t}\n\trt.Emit(46, it.Current())\n" % (src, indent(c06_loop_body(rng, "v", allow_return=False), 2)) + tail
+    if shape == "struct_field":
+        return head + "\tbx := box@{it: %s, base: b}\n\tfor v := range bx.it {\n%s\n\t}\n\tfor w := range bx.Gen(2) {\n\t\tt += w\n\t}\n" % (src, indent(c06_loop_body(rng, "v"), 2)) + tail
+    if shape == "map_slice":
+        return head + "\tm := map[int]Iter[int]{1: %s, 2: %s}\n\tits := []Iter[int]{m[2], m[1]}\n\tfor i, it := range its {\n\t\tfor v := range it {\n%s\n\t\t}\n\t\trt.Emit(48, i)\n\t}\n" % (fin, src, indent(c06_loop_body(rng, "v", allow_return=False), 3)) + tail
+    if shape == "closure_pull":
+        return head + "\tit := %s\n\tnext := func() (int, bool) {\n\t\tok := it.MoveNext()\n\t\treturn it.Current(), ok\n\t}\n\tfor k := 0; k < 3; k++ {\n\t\tv, ok := next()\n\t\tif !ok {\n\t\t\tbreak\n\t\t}\n%s\n\t}\n" % (src, indent(c06_loop_body(rng, "v", allow_return=True), 2)) + tail
+    if shape == "generic_take":
+        return head + "\txs := take@(%s, n+1)\n\tt = sum@(xs)\n\tys := take@(mapIt@(%s, func(x int) int { return x*2 + a }), 2)\n\tt = (t << 1) ^ sum@(ys)\n" % (src, fin) + tail
+    if shape == "param_pass":
+        return ("func drain@(it Iter[int], lim int, g bool) int {\n\tt := 0\n\tfor v := range it {\n\t\tt = (t << 1) ^ v\n\t\tlim--\n\t\tif lim <= 0 || (g && v > 5) {\n\t\t\tbreak\n\t\t}\n\t}\n\treturn t\n}\n\n" +
+                head + "\tit := %s\n\tt = drain@(it, 2, g1)\n\trt.Emit(46, t)\n\tt = (t << 1) ^ drain@(it, 2, g2)\n" % src + tail)
+    raise ValueError(shape)
+
+
+C06_SHAPES = ["range_define", "range_assign", "nested", "pull_then_range", "range_then_pull", "struct_field", "map_slice", "closure_pull", "generic_take", "param_pass"]
+
+
+def c06_programs(rng, per_shape):
+    progs = []
+    n = 0
+    for shape in C06_SHAPES:
+        for _ in range(per_shape):
+            pid = "c%04d" % n
+            n += 1
+            text = (C06_GENS + "\n" + c06_consumer(rng, shape) + "\n" + C06_DRIVER).replace("@", pid)
+            # the Program's own generator is a trivial one (kept so that the file layout is uniform)
+            p = Program(pid, [("yield", "a")], helpers="", family="con", tags={"consumer:" + shape})
+            p.driver = text
+            progs.append(p)
+    return progs
